@@ -62,6 +62,7 @@ def run(db, chk):
     # fan-out bisection bounds (shared rule with C09)
     from props import _fan
     _fan.fan_bounds(chk, db.one(r"^gix_commitgraph::file::access::<impl gix_commitgraph::File>::lookup_inner$"), "commit-graph File::lookup_inner")
+    _fan.fan_index_rule(db, chk, ["gix_commitgraph"], 2)
 
 
 def chain_offset_rule(db, chk):
